@@ -253,9 +253,9 @@ package engine
 //@ func (*DefaultEngine).Exec
 //@   serves C18, C03
 // the VM sees the client's input exactly as it was sent (C03: routed by what the client typed, shown as typed)
-//@   callsite (*state.State).SetInput assert[C03,C17] @verbatim arg1 == input
-//@   callsite (*engine.DefaultEngine).init assert[C03,C17] @verbatim arg2 == input
-//@   callsite (*engine.DefaultEngine).exec assert[C03,C17] @verbatim arg2 == input
+//@   callsite (*state.State).SetInput assert[C03,C17] @verbatim arg1 == old(input)
+//@   callsite (*engine.DefaultEngine).init assert[C03,C17] @verbatim arg2 == old(input)
+//@   callsite (*engine.DefaultEngine).exec assert[C03,C17] @verbatim arg2 == old(input)
 // the VM runs with the session's language in its context (C18)
 //@   callsite (*engine.DefaultEngine).exec assert[C18] @lang vm.langInCtx(ctx, en.st)
 //@   serves C17
